@@ -5,6 +5,8 @@
 package rruntime
 
 import (
+	"slices"
+
 	"github.com/cosi-project/runtime/pkg/controller"
 	"github.com/cosi-project/runtime/pkg/controller/runtime/internal/reduced"
 	"github.com/cosi-project/runtime/pkg/controller/runtime/metrics"
@@ -16,34 +18,58 @@ type watchKey struct {
 	Type      resource.Type
 }
 
-func (adapter *Adapter) addWatchFilter(resourceNamespace resource.Namespace, resourceType resource.Type, filter reduced.WatchFilter) {
+// addWatchInput starts tracking the input for the purpose of filtering watch events.
+func (adapter *Adapter) addWatchInput(input controller.Input) {
 	adapter.watchFilterMu.Lock()
 	defer adapter.watchFilterMu.Unlock()
 
-	if adapter.watchFilters == nil {
-		adapter.watchFilters = make(map[watchKey]reduced.WatchFilter)
+	if adapter.watchInputs == nil {
+		adapter.watchInputs = make(map[watchKey][]controller.Input)
 	}
 
-	adapter.watchFilters[watchKey{resourceNamespace, resourceType}] = filter
+	key := watchKey{input.Namespace, input.Type}
+
+	adapter.watchInputs[key] = append(adapter.watchInputs[key], input)
 }
 
-func (adapter *Adapter) deleteWatchFilter(resourceNamespace resource.Namespace, resourceType resource.Type) {
+// deleteWatchInput stops tracking the input for the purpose of filtering watch events.
+func (adapter *Adapter) deleteWatchInput(input controller.Input) {
 	adapter.watchFilterMu.Lock()
 	defer adapter.watchFilterMu.Unlock()
 
-	delete(adapter.watchFilters, watchKey{resourceNamespace, resourceType})
+	key := watchKey{input.Namespace, input.Type}
+
+	adapter.watchInputs[key] = slices.DeleteFunc(adapter.watchInputs[key], input.EqualKeys)
+
+	if len(adapter.watchInputs[key]) == 0 {
+		delete(adapter.watchInputs, key)
+	}
 }
 
 // WatchTrigger is called by common controller runtime when there is a change in the watched resources.
+//
+// The event is dropped only if every input which matches the resource is a DestroyReady input,
+// and the resource is not ready to be destroyed.
 func (adapter *Adapter) WatchTrigger(md *reduced.Metadata) {
 	adapter.watchFilterMu.Lock()
 	defer adapter.watchFilterMu.Unlock()
 
-	if adapter.watchFilters != nil {
-		if filter := adapter.watchFilters[watchKey{md.Namespace, md.Typ}]; filter != nil && !filter(md) {
-			// skip reconcile if the event doesn't match the filter
-			return
+	matched, passed := false, false
+
+	for _, input := range adapter.watchInputs[watchKey{md.Namespace, md.Typ}] {
+		if id, ok := input.ID.Get(); ok && id != md.ID {
+			continue
 		}
+
+		matched = true
+
+		if input.Kind != controller.InputDestroyReady || reduced.FilterDestroyReady(md) {
+			passed = true
+		}
+	}
+
+	if matched && !passed {
+		return
 	}
 
 	adapter.triggerReconcile()
